@@ -806,6 +806,11 @@ def mul_rules(prog, chk, pid):
 
         def affine_pair(v, of):
             v = unsnap(v)
+            if v.op == "slice" and v.args[1] is NONE and is_const(unsnap(v.args[2])) and cval(unsnap(v.args[2])) == 2 and v.args[3] is NONE:
+                # the first two stored coordinates of a point that was just scaled: scale() leaves (x, y, 1), and x() / y() return exactly these when Z is 1
+                b_ = unsnap(v.args[0])
+                ms_ = meth_call(unsnap(of))
+                return b_.op == "attr" and b_.args[1].endswith("__coords") and unsnap(b_.args[0]) is unsnap(of) and bool(ms_) and ms_[1] == "scale" and not ms_[2]
             if v.op != "tuple" or len(v.args[0]) != 2:
                 return False
             for t, nm in zip(v.args[0], ("x", "y")):
